@@ -98,3 +98,48 @@ package objectcore
 
 //@ func (*FormatValidator).checkAttributes
 //@   loop 1 iteration [every_attribute_unique_and_without_zero_byte] !was && attrClean()
+
+// ---- C04: the continuation cursor is an index key: attribute, delimiter, value, [delimiter,]
+// object ID. Whatever the branch, the write position at which the item's ID is copied is the
+// last 32 bytes of the key (off for the string branches, off+33 for the integer branch, where
+// the 33-byte number is written first): the running offset accounts for every part written.
+// (Stated over the offset arithmetic; the byte-level statement "the key ends with the ID"
+// exceeded the solver budget - three chained quantified copies - and is left to the replay.)
+
+//@ fileprops C04
+
+//@ callrule c04_cursor_collaborators in CalculateCursor
+//@   callee (*object.SearchFilter).*, (object.SearchFilter).*, object.IsIntegerSearchOp, signed256.ParseDecimal, base58.Decode, hex.DecodedLen, uuid.Parse
+//@   pureeffect
+//@ callrule c04_hex_decode_fills_prefix in CalculateCursor
+//@   callee hex.Decode
+//@   assigns []uint8
+//@   ensures err == nil ==> res0 == len(a1) / 2
+
+//@ func CalculateCursor
+//@   mode int
+//@   opt abstract=copycontent
+//@   valid len(MetaAttributeDelimiter) == 1
+//@   ensures [id_position_is_the_last_32_bytes] err == nil && len(res0) > 32 ==> off == len(res0) - 32 || off + 33 == len(res0) - 32
+
+// Attributes whose values are identifiers (owner, first split object, parent, associated
+// object) are indexed by their raw bytes and shown in Base58: the cursor must carry the decoded
+// bytes, and merged results must be ordered by the decoded bytes, never by the Base58 text.
+//@ ghost pred idValueDecoded() bool
+//@ callrule c04_cursor_decodes_identifier_values in CalculateCursor
+//@   callee base58.Decode
+//@   pureeffect
+//@   defines err == nil ==> idValueDecoded()
+//@ func CalculateCursor
+//@   ensures [identifier_values_are_decoded] err == nil && len(res0) > 32 && (attr == object.FilterOwnerID || attr == object.FilterFirstSplitObject || attr == object.FilterParentID || attr == object.AttributeAssociatedObject) ==> idValueDecoded()
+
+//@ callrule c04_merge_orders_identifier_values_by_bytes in MergeSearchResults
+//@   callee strings.Compare
+//@   pureeffect
+//@   requires [text_order_only_for_plain_attributes] firstAttr != object.FilterOwnerID && firstAttr != object.FilterFirstSplitObject && firstAttr != object.FilterParentID && firstAttr != object.AttributeAssociatedObject
+
+// The scan that decides, at the page limit, whether anything is left (`more`) stops at the
+// first set that still holds another item: while it runs, nothing has been found yet.
+//@ func MergeSearchResults
+//@   loop 3 invariant !more
+//@   loop 4 invariant !more
